@@ -241,6 +241,7 @@ def oracle(ctx):
     options_snapshot_probe(ctx)
     parameterless_operator_probe(ctx)
     autodetected_hermitian_leaf_probe(ctx)
+    nested_backward_options_probe(ctx)
 
 
 def operator_reuse_probe(ctx):
@@ -603,6 +604,54 @@ def autodetected_hermitian_leaf_probe(ctx):
             elif not e2 <= 1e-8:
                 ctx.fail("oracle", "solvegrad:second-order:autodetected-hermitian-leaf" if flag is None else "solvegrad:symmetric-valued-leaf:second-order",
                          info, {"second_order_error": e2}, "<= 1e-8 against torch.linalg.solve")
+
+
+def nested_backward_options_probe(ctx):
+    """the backward options reach EVERY level: the adjoint solve recorded by a create_graph backward pass is itself differentiated with
+    the caller's bck_options.  A matrix-free, skew-dominant 8x8 operator whose adjoint system the default Krylov method does not
+    solve, bck_options = custom_exactsolve: second-order gradients equal those of the dense solution map (round-6 seed C02/15: the
+    nested solve call lost bck_options and fell back to the default method)"""
+    import xitorch as xt
+    from xitorch.linalg import solve
+    g = torch.Generator().manual_seed(ctx.seed + 101)
+
+    class MatFree(xt.LinearOperator):
+        def __init__(self, mat):
+            super().__init__(shape=mat.shape, is_hermitian=False, dtype=mat.dtype, device=mat.device)
+            self.mat = mat
+
+        def _mv(self, x):
+            return torch.matmul(self.mat, x.unsqueeze(-1)).squeeze(-1)
+
+        def _getparamnames(self, prefix=""):
+            return [prefix + "mat"]
+    n = 8
+    s0 = torch.randn(n, n, dtype=DT, generator=g)
+    A0 = (s0 - s0.T) * 0.5 + 0.05 * torch.eye(n, dtype=DT)
+    B0 = torch.randn(n, 2, dtype=DT, generator=g)
+    w = torch.randn(n, 2, dtype=DT, generator=g)
+    rnd = [torch.randn(n, n, dtype=DT, generator=g), torch.randn(n, 2, dtype=DT, generator=g)]
+
+    def second(xf):
+        A = A0.clone().requires_grad_()
+        B = B0.clone().requires_grad_()
+        X = xf(A, B)
+        g1 = torch.autograd.grad((X * w).sum(), (A, B), create_graph=True)
+        h = torch.autograd.grad(sum((t * r).sum() for t, r in zip(g1, rnd)), (A, B))
+        return [t.detach() for t in g1] + list(h)
+    ctx.count(("nested-backward-options",), nontrivial=True)
+    try:
+        with warnings.catch_warnings():
+            warnings.simplefilter("ignore")
+            ref = second(lambda A, B: torch.linalg.solve(A, B))
+            got = second(lambda A, B: solve(MatFree(A), B, method="custom_exactsolve", bck_options={"method": "custom_exactsolve"}))
+    except Exception as e:
+        ctx.fail("oracle", "solvegrad:nested-backward-options:exception", {}, repr(e)[:300], "second-order gradients")
+        return
+    rel = [float((r - t).abs().max() / r.abs().max()) for r, t in zip(ref, got)]
+    if not max(rel) <= 1e-6:
+        ctx.fail("oracle", "solvegrad:nested-backward-options", {"operator": "matrix-free, skew-symmetric + 0.05 I, 8x8", "bck_options": {"method": "custom_exactsolve"}},
+                 {"relative_deviation [dA, dB, d2A, d2B]": rel}, "<= 1e-6 against torch.linalg.solve")
 
 
 def search(ctx):
